@@ -35,6 +35,15 @@
 (*        never rounded (rounding could move the value past the instant    *)
 (*        the text denotes, up to a second that does not exist)            *)
 (*        tz = <<"none">> | <<"utc">> | <<"off", sign, hours, minutes>>    *)
+(*        The zone is part of the value: y .. S are the *local* calendar   *)
+(*        fields as written, tz the UTC offset as written ("Z" and "+00:00"*)
+(*        are both a zero offset).  Two texts denote the same datetime     *)
+(*        when fields and offset agree - the same instant under another    *)
+(*        offset is another value.  The offset is sign * (hours * 60 +     *)
+(*        minutes) whatever the spelling of the hour part: "+0:30", "+00:30"*)
+(*        are thirty minutes, "-0", "-00:00", "+0" are zero; the minutes   *)
+(*        count when the hours are zero and the hours when there are no    *)
+(*        minutes (TimestampShape names the spellings).                    *)
 (*   <<"merge">>  <<"value">>  <<"str">> (the text itself)                 *)
 (*   <<"undefined", type, why>> : the lexical description of `type` fits   *)
 (*        but the rules give the text no value (a base prefix without any  *)
@@ -228,9 +237,31 @@ DT(s) ==   \* the cut points of a date-time, ok = the text has the lexical struc
        se |-> Sub(s, q + hl + 4, q + hl + 5),
        fr |-> IF fl = 0 THEN <<>> ELSE Sub(s, r + 1, r + fl - 1),
        tzform |-> tzform, tzsign |-> At(s, v),
-       tzh |-> Sub(s, v + 1, v + th), tzm |-> IF tzform = "hm" THEN Sub(s, v + th + 2, v + th + 3) ELSE <<"0">> ]
+       tzh |-> Sub(s, v + 1, v + th), tzm |-> IF tzform = "hm" THEN Sub(s, v + th + 2, v + th + 3) ELSE <<"0">>,
+       sep |-> Sub(s, p, p + sl - 1), gap |-> wl, dot |-> fl > 0 ]
 IsDateTime(s) == DT(s).ok
 IsTimestamp(s) == IsDate(s) \/ IsDateTime(s)
+
+\* The spelling classes of a timestamp text: everything the lexical description leaves open.  Not used by Value (which
+\* must not depend on them beyond the digits' values); the enumeration is held to reach every class (harness: no vacuity).
+\*   sep   "date" | "T" | "t" | "blank" (one space or tab) | "blanks" (several)
+\*   dig   number of digits of <<month, day, hour>> (1 or 2 each; a date has 2, 2, 0)
+\*   frac  <<>> (no fraction) | <<number of fraction digits>> (0 = a bare point, 7 = seven or more)
+\*   gap   blanks before the zone: 0, 1, 2 (= two or more)
+\*   zone  <<"none">> | <<"Z">> | <<sign, hour spelling, minute spelling>>
+\*         hour spelling  "0" "00" "d" (1-9) "0d" (01-09) "dd" (10-99);  minute spelling  "absent" "00" "nonzero"
+TimestampShape(s) ==
+  IF IsDate(s) THEN [sep |-> "date", dig |-> <<2, 2, 0>>, frac |-> <<>>, gap |-> 0, zone |-> <<"none">>]
+  ELSE LET t == DT(s) IN
+       [sep  |-> IF t.sep \in {<<"T">>, <<"t">>} THEN t.sep[1] ELSE IF Len(t.sep) = 1 THEN "blank" ELSE "blanks",
+        dig  |-> <<Len(t.mo), Len(t.d), Len(t.h)>>,
+        frac |-> IF ~t.dot THEN <<>> ELSE <<Min(Len(t.fr), 7)>>,
+        gap  |-> Min(t.gap, 2),
+        zone |-> CASE t.tzform = "none" -> <<"none">> [] t.tzform = "utc" -> <<"Z">>
+                   [] OTHER -> <<t.tzsign,
+                                 IF t.tzh = <<"0">> THEN "0" ELSE IF t.tzh = <<"0", "0">> THEN "00"
+                                 ELSE IF Len(t.tzh) = 1 THEN "d" ELSE IF t.tzh[1] = "0" THEN "0d" ELSE "dd",
+                                 IF t.tzform = "h" THEN "absent" ELSE IF t.tzm = <<"0", "0">> THEN "00" ELSE "nonzero">>]
 
 \* microseconds of a fraction (digit values): six digits, padded with zeros, the rest dropped
 Micro(fr) == NatOf(IF Len(fr) >= 6 THEN SubSeq(fr, 1, 6) ELSE fr \o [i \in 1 .. 6 - Len(fr) |-> 0])
